@@ -647,6 +647,54 @@ fn mux_enumerate(ctx: &mut Ctx, rec: &mut Recorder, k: usize, len: usize, serial
     }
 }
 
+/// every arrival sequence of length <= `len` over 11 fixed event kinds on one transmission, for one
+/// request, with and without case randomisation (small-scope validation of the loop model)
+fn udp_enumerate(ctx: &mut Ctx, rec: &mut Recorder, len: usize) {
+    let server: SocketAddr = "192.168.1.1:53".parse().unwrap();
+    let q = Q { labels: vec![b"ExAmPlE".to_vec(), b"cOm".to_vec()], qtype: 1, qclass: 1 };
+    let ql = Q { labels: vec![b"example".to_vec(), b"com".to_vec()], qtype: 1, qclass: 1 };
+    let other = Q { labels: vec![b"evil".to_vec(), b"com".to_vec()], qtype: 1, qclass: 1 };
+    let d = |src: SocketAddr, id: u16, resp: bool, qs: Vec<Q>| Ev::D { delay: 0, src, parses: true, resp, id, qs, raw: None };
+    let mapped = SocketAddr::new(IpAddr::V6(Ipv4Addr::new(192, 168, 1, 1).to_ipv6_mapped()), 53);
+    let kinds: Vec<Ev> = vec![
+        d(server, 4660, true, vec![q.clone()]),
+        d("192.168.1.2:53".parse().unwrap(), 4660, true, vec![q.clone()]),
+        d("192.168.1.1:54".parse().unwrap(), 4660, true, vec![q.clone()]),
+        d(mapped, 4660, true, vec![q.clone()]),
+        d(server, 4661, true, vec![q.clone()]),
+        d(server, 4660, true, vec![other.clone()]),
+        d(server, 4660, true, vec![q.clone(), other.clone()]),
+        d(server, 4660, true, vec![ql.clone()]),
+        Ev::D { delay: 0, src: server, parses: false, resp: false, id: 0, qs: vec![], raw: Some(vec![0]) },
+        d(server, 4660, false, vec![q.clone()]),
+        Ev::E { delay: 0 },
+    ];
+    for case_rand in [false, true] {
+        for l in 0..=len {
+            for code in 0..kinds.len().pow(l as u32) {
+                let mut c = code;
+                let mut sc = vec![];
+                for _ in 0..l {
+                    sc.push(kinds[c % kinds.len()].clone());
+                    c /= kinds.len();
+                }
+                let case = UdpCase {
+                    timeout: 5010,
+                    retry_interval: 1000,
+                    floor: 1000,
+                    max_retries: 1,
+                    server,
+                    id: 4660,
+                    case_rand,
+                    qs: vec![q.clone()],
+                    scripts: vec![sc],
+                };
+                exec(ctx, &udp::case_line(&case), rec);
+            }
+        }
+    }
+}
+
 pub fn run(o: &Opts, rec: &mut Recorder) {
     rec.rule = "UDP lines: scripted arrival lists (genuine reply + forged datagrams of 17 kinds: wrong ip/port/id/name/type/class, extra/duplicate/missing question, case flip, garbage, truncation, QR=0, recv error, v4-mapped alias) per transmission, with delays, with and without case randomisation; a case is non-trivial when a non-matching datagram was examined or a reply was accepted after at least one other datagram; distinct by case line. Multiplexer blocks (begin…end): k concurrent requests on a scripted stream, responses in any order / duplicated / never / unknown id / undecodable / QR=0, cancels, timeouts in virtual time, close, shutdown, floods of 99-250 frames, stalled writer; a block is non-trivial when at least two requests were in flight together and a response reached a caller; distinct by block serial".into();
     let mut ctx = Ctx::default();
@@ -659,7 +707,8 @@ pub fn run(o: &Opts, rec: &mut Recorder) {
         return;
     }
     let mut r = Rng::new(o.seed);
-    let n = o.n(4000, 150_000);
+    udp_enumerate(&mut ctx, rec, if o.thorough() { 4 } else { 2 });
+    let n = o.n(4000, 600_000);
     for _ in 0..n {
         let c = gen_udp(&mut r);
         exec(&mut ctx, &udp::case_line(&c), rec);
@@ -671,7 +720,7 @@ pub fn run(o: &Opts, rec: &mut Recorder) {
     } else {
         mux_enumerate(&mut ctx, rec, 3, 3, &mut serial);
     }
-    let nb = o.n(600, 20_000);
+    let nb = o.n(600, 100_000);
     for i in 0..nb {
         mux_block(&mut r, &mut ctx, rec, i);
     }
